@@ -203,26 +203,15 @@ fn deserialize<'a>(ty: &OwnedDataModelType, data: &'a [u8]) -> Result<(Value, &'
             name: _,
             data: OwnedData::Tuple(tys),
         } => {
-            match &tys[..] {
-                [] => {
-                    // TODO: Not sure this is right...
-                    Ok((Value::Null, data))
-                }
-                [ty] => {
-                    // Single item, NOT an array
-                    deserialize(ty, data)
-                }
-                multi => {
-                    let mut vec = vec![];
-                    let mut rest = data;
-                    for ty in multi.iter() {
-                        let (val, irest) = deserialize(ty, rest)?;
-                        rest = irest;
-                        vec.push(val);
-                    }
-                    Ok((Value::Array(vec), rest))
-                }
+            // serde_json represents a tuple of ANY arity (including 0 and 1) as an array
+            let mut vec = vec![];
+            let mut rest = data;
+            for ty in tys.iter() {
+                let (val, irest) = deserialize(ty, rest)?;
+                rest = irest;
+                vec.push(val);
             }
+            Ok((Value::Array(vec), rest))
         }
         OwnedDataModelType::Map { key, val } => {
             // TODO: impling blind because we can't test this, oops
